@@ -342,6 +342,7 @@ pub fn gen_case(ch: &mut Chooser, tier: Tier) -> Case {
                 &CfOpts {
                     back_edges: true,
                     faults: true,
+                    trunc_tail: true,
                     max_blocks: 8,
                 },
             )
